@@ -112,7 +112,7 @@ func c06Rules(tier string) []Rule {
 
 		// ---- multi node search
 		core.Custom{ID: "C06.MPT5", Kind: "MPT", Run: c06FirstN},
-		MPT{ID: "C06.MPT5b", Fn: "disr.filterOutSameInstanceType", Ret: core.RetNilConst, Gates: gates(
+		MPT{ID: "C06.MPT5b", Fn: "(*disr.Replacement).filterOutSameInstanceType", Ret: core.RetNilConst, Gates: gates(
 			G(`+^\(\*sched\.NodeClaim\)\.RemoveInstanceTypeOptionsByPriceAndMinValues\(\$0\.NodeClaim, \$0\.NodeClaim\.NodeClaimTemplate\.Requirements, phi\(`),
 		)},
 
@@ -319,7 +319,7 @@ func c06FirstN(w *core.World, id string) []core.Result {
 	var out []core.Result
 	// the "true" constant edges of the validDecision phis
 	n := 0
-	g1 := G(`+^disr\.filterOutSameInstanceType\(.*\)#1 == nil$`)
+	g1 := G(`+^\(\*disr\.Replacement\)\.filterOutSameInstanceType\(.*\)#1 == nil$`)
 	g2 := G(`+^len\(.*\.Replacements\[0\]\.NodeClaim\.NodeClaimTemplate\.InstanceTypeOptions\)>=1$`)
 	g3 := G(`+^\(disr\.Command\)\.Decision\(.*\) == disr\.ReplaceDecision$`)
 	for _, b := range fn.Blocks {
